@@ -4,7 +4,7 @@ from __future__ import annotations
 
 from typing import Any, Dict, List, Optional, Tuple
 
-from .loader import lookup
+from .loader import lookup, materialize
 
 
 def native_check(contract: Any, args: Dict[str, Any], ghost: Optional[Dict[str, Any]] = None) -> Tuple[str, List[str], Any]:
@@ -19,7 +19,7 @@ def native_check(contract: Any, args: Dict[str, Any], ghost: Optional[Dict[str, 
         except Exception as e:
             return "skip", [f"{cl.label}: {type(e).__name__}"], None
     try:
-        res = fi.pyfunc(*[args[a] for a in fi.argnames])
+        res = materialize(fi)(*[args[a] for a in fi.argnames])
     except Exception as e:
         allowed = {r[0] for r in contract.raises}
         if type(e).__name__ in allowed:
